@@ -292,6 +292,11 @@ func (c *ShipConnection) hasSpineDatagram(message []byte) bool {
 
 // the websocket data connection was closed from remote
 func (c *ShipConnection) ReportConnectionError(err error) {
+	// the state is read and acted upon: do not interleave with a message,
+	// timeout or user decision that is being processed
+	c.handshakeMux.Lock()
+	defer c.handshakeMux.Unlock()
+
 	// if the handshake is aborted, a closed connection is no error
 	currentState := c.getState()
 
